@@ -160,4 +160,20 @@ def isDeep2Block : Block → Bool
     `em` in `strong`, `strong` in `em`) around words, escapes and code spans; contains `DeepDoc` -/
 def Deep2Doc (d : Doc) : Bool := d.all isDeep2Block
 
+/-- a hard break (two spaces and a newline), or an item of `isDeep2Item` -/
+def isBrItem : Inline → Bool
+  | .br => true
+  | x => isDeep2Item x
+
+def brRun (c : List Inline) : Bool := c.all isBrItem && noBsBeforeCode c
+
+/-- as `isDeep2Block`, and paragraphs may contain hard breaks (at top level, where well-formedness allows them) -/
+def isBrBlock : Block → Bool
+  | .para c => brRun c
+  | b => isDeep2Block b
+
+/-- a document of rules, code blocks, headings with two levels of emphasis, and paragraphs of several lines: two levels
+    of emphasis, and hard breaks between the lines; contains `Deep2Doc` -/
+def BrDoc (d : Doc) : Bool := d.all isBrBlock
+
 end MdVerif.DocSpec
